@@ -286,7 +286,9 @@ func genCfg(G *simrt.Tape, U []*Key, prev *mCfg, maxSvc int) *mCfg {
 				ln = prevLn[G.Draw(len(prevLn))]
 			} else {
 				port := 9000 + G.Draw(12)
-				ln = mLn{[]string{"tcp", "udp"}[G.Draw(2)], fmt.Sprintf(mainAddrs[G.Draw(2)], port)}
+				// one address form per port for the whole run: the manager shares listeners
+				// by address text, so another form of the same port is a genuine bind conflict
+				ln = mLn{[]string{"tcp", "udp"}[G.Draw(2)], fmt.Sprintf(mainAddrs[(port*7+3)%len(mainAddrs)], port)}
 			}
 			_, pstr, _ := net.SplitHostPort(ln.Addr)
 			var pn int
